@@ -12,8 +12,9 @@ env.const_sid_hash()
 from xhair import memfs  # noqa: E402
 
 memfs.install()
+import hamlet_plugins.next_get  # noqa: E402,F401   (imported lazily by the data configuration: must exist before tracing starts)
 
-from spil import Sid, conf, SpilException, WriteToPaths, GetFromPaths, FindInPaths  # noqa: E402
+from spil import Sid, conf, SpilException, WriteToPaths, GetFromPaths, FindInPaths, GetFromAll  # noqa: E402
 from spil.sid.pathops import write_paths, getter_paths  # noqa: E402
 
 SIDS = ["h/a/x/v1/m", "h/a/x/v1/b", "h/a/x/v1/g", "h/a/x/v1", "h/a/x", "h/a/y/v1/m", "h/s/q1/v1/o", "h", "h/a/x.y/v1/m", "bogus/sid"]
@@ -207,6 +208,35 @@ def two_sids(sj: int, k: int, v: int, v2: int) -> bool:
         par = pth.rsplit("/", 1)[0]
         if par not in ("", "/r", "/z") and par not in memfs.FS:
             return fail("existing-path-without-parent")
+    return True
+
+
+POOL = [x for x in envstr("VF_POOL", "h/a/x;h/s/q1;h/a/x/v1/m;h/s/q1/v1/o/c;h/a/x/v1").split(";") if x]
+
+
+def attr_readback(si: int, k: int, v: int) -> bool:
+    """
+    Data written to an entity reads back through every reading route: a new GetFromPaths, sid.get_attr and GetFromAll
+    (both routed by the data configuration's get_getter_for); types configured with a Getter only.
+    pre: 0 <= si < len(POOL) and 0 <= k < 2 and 0 <= v < 6
+    post: _
+    """
+    si, k, v = _R[si], _R[k], _R[v]
+    sid = Sid(POOL[si])
+    memfs.reset({})
+    w = WriteToPaths(CONFIG)
+    w.create(sid)
+    w.set(sid, **{KEYS[k]: VALS[v]})
+    want = json.loads(json.dumps({KEYS[k]: VALS[v]}, default=str))[KEYS[k]]
+    if GetFromPaths(CONFIG).get_data(sid).get(KEYS[k]) != want:
+        return fail("getfrompaths-read-back")
+    if sid.get_attr(KEYS[k]) != want:
+        return fail("sid.get_attr-read-back")
+    if GetFromAll().get_attr(sid, KEYS[k]) != want:
+        return fail("getfromall-get_attr-read-back")
+    d = GetFromAll().get_data(sid)
+    if d.get(KEYS[k]) != want or d.get("sid") != str(sid):
+        return fail("getfromall-get_data-read-back")
     return True
 
 
